@@ -545,6 +545,10 @@ StandIn("C15/grid", "C15",
         "5000 seeded specs", _c15g_cases, _c15g_check)
 
 
+StandIn("C03/grid-within-bounds", "C03", "same specs as C15/grid: the grid every sampler snaps onto never exceeds the "
+        "upper bound by more than the 1e-7 tolerance", "5000 seeded specs", _c15g_cases, _c15g_check)
+
+
 # ================================================================================================ C19
 
 def _mk_agent(case):
